@@ -29,7 +29,10 @@ BASE = {
     "str": (["a", "B", "", "zz"], ["x", "", "y", "a"]),
     "date": ([D1, D2, D3, D1], [D2, D2, D1, D3]),
 }
-PAIRS = [(k, k) for k in BASE] + [("int", "float"), ("bool", "int"), ("float", "complex"), ("str", "int"), ("int", "str")]
+# %-templates with one conversion each: an operator that ACCEPTS None as right operand ('<%s>' % None == '<None>') - the None must
+# propagate all the same
+FMT = (["<%s>", "%s!", "[%s]", "%s%%"], ["<%s>", "%s!", "[%s]", "%s%%"])
+PAIRS = [(k, k) for k in BASE] + [("fmt", "str"), ("fmt", "int"), ("fmt", "float"), ("fmt", "date")] + [("int", "float"), ("bool", "int"), ("float", "complex"), ("str", "int"), ("int", "str")]
 OPS = {"add": operator.add, "sub": operator.sub, "mul": operator.mul, "truediv": operator.truediv,
        "floordiv": operator.floordiv, "mod": operator.mod, "pow": operator.pow}
 CMP = {"eq": operator.eq, "ne": operator.ne, "lt": operator.lt, "le": operator.le, "gt": operator.gt, "ge": operator.ge}
@@ -70,7 +73,7 @@ def unit_arith(unit):
     _, ka, kb, N = unit
     agg = Agg()
     for n in range(1, N + 1):
-        ba, bb = BASE[ka][0][:n], BASE[kb][1][:n]
+        ba, bb = (FMT if ka == "fmt" else BASE[ka])[0][:n], BASE[kb][1][:n]
         for ma in masks(n):
             xs = with_none(ba, ma)
             if all(ma):
@@ -650,8 +653,90 @@ def unit_long(unit):
     return agg
 
 
+class EqualsAnything:
+    """an element that is NOT None but compares equal to None (unittest.mock.ANY behaves like this): `is None` decides, never `==`"""
+    def __init__(self, tag):
+        self.tag = tag
+
+    def __eq__(self, other):
+        return True
+
+    def __ne__(self, other):
+        return False
+
+    def __hash__(self):
+        return 7
+
+    def __repr__(self):
+        return f"<anything {self.tag}>"
+
+
+def unit_eqnone(unit):
+    """None is told by identity: every arrangement (len <= 3) of None, elements that merely compare EQUAL to None, and a plain
+    object, through isna / dropna / fillna, len, and the per-group count of aggregate and window"""
+    from serif import Vector, Table
+    agg = Agg()
+    A, B, obj = EqualsAnything("a"), EqualsAnything("b"), object()
+    for n in (1, 2, 3):
+        for vals in itertools.product([A, B, None, obj], repeat=n):
+            vals = list(vals)
+            isn = [x is None for x in vals]
+            case = {"values": [repr(x)[:20] for x in vals]}
+            agg.states += 1; agg.evals += 1; agg.transitions += 5; agg.compared += 5
+            if any(isn) and not all(isn):
+                agg.nontrivial += 1
+            try:
+                v = Vector(list(vals))
+                got_isna = list(v.isna()._underlying)
+                got_drop = list(v.dropna()._underlying)
+                fill = EqualsAnything("fill")
+                ln = len(v)
+                try:
+                    got_fill = list(v.fillna(fill)._underlying)
+                except Exception:
+                    got_fill = None          # whether this fill value fits the column's kind is another matter
+                    agg.skipped["fill-value-refused"] += 1
+            except Exception as e:
+                agg.violation(V("eqnone.vector", "raises-" + type(e).__name__, case, None, repr(e)[:80]))
+                continue
+            bad = None
+            if got_isna != isn:
+                bad = ("isna", isn, got_isna)
+            elif [id(x) for x in got_drop] != [id(x) for x in vals if x is not None]:
+                bad = ("dropna", [repr(x)[:20] for x in vals if x is not None], [repr(x)[:20] for x in got_drop])
+            elif got_fill is not None and [id(x) for x in got_fill] != [id(fill) if x is None else id(x) for x in vals]:
+                bad = ("fillna", "only the None positions replaced", [repr(x)[:20] for x in got_fill])
+            elif ln != n:
+                bad = ("len", n, ln)
+            if bad:
+                agg.violation(V("eqnone." + bad[0], "an-element-equal-to-None-treated-as-None", case, bad[1], bad[2]))
+                continue
+            for keys in itertools.product(["g", "h"], repeat=n):
+                groups = {}
+                for k, x in zip(keys, vals):
+                    groups.setdefault(k, []).append(x)
+                want = [sum(1 for x in g if x is not None) for g in groups.values()]
+                want_rows = [sum(1 for x in groups[k] if x is not None) for k in keys]
+                agg.evals += 1; agg.transitions += 2; agg.compared += 2
+                try:
+                    t = Table({"k": list(keys), "v": list(vals)})
+                    got = list(t.aggregate(over="k", count_over="v")._underlying[-1]._underlying)
+                    gotw = list(t.window(over="k", count_over="v")._underlying[-1]._underlying)
+                except Exception as e:
+                    agg.violation(V("eqnone.count_over", "raises-" + type(e).__name__, dict(case, keys=list(keys)), want, repr(e)[:80]))
+                    continue
+                if got != want:
+                    agg.violation(V("eqnone.aggregate.count", "an-element-equal-to-None-treated-as-None", dict(case, keys=list(keys)), want, got))
+                elif gotw != want_rows:
+                    agg.violation(V("eqnone.window.count", "an-element-equal-to-None-treated-as-None", dict(case, keys=list(keys)), want_rows, gotw))
+                else:
+                    agg.outcomes["group-agree"] += 1
+            agg.outcomes["dropna-agree"] += 1
+    return agg
+
+
 def run_unit(unit):
-    return {"arith": unit_arith, "cmp": unit_compare, "red": unit_reduce, "na": unit_na, "grp": unit_groups, "redh": unit_reduce_hist, "long": unit_long}[unit[0]](unit)
+    return {"eqnone": unit_eqnone, "arith": unit_arith, "cmp": unit_compare, "red": unit_reduce, "na": unit_na, "grp": unit_groups, "redh": unit_reduce_hist, "long": unit_long}[unit[0]](unit)
 
 
 def check(ctx):
@@ -661,7 +746,7 @@ def check(ctx):
     units += [("red", k, N + 1) for k in BASE]
     units += [("na", k, N + 1) for k in list(BASE) + ["object"]]
     units += [("grp", "str", n) for n in range(1, 4)]
-    units += [("long", k) for k in BASE]
+    units += [("long", k) for k in BASE] + [("eqnone",)]
     units += [("redh", k, pol) for k in ("int", "float", "str", "date") for pol in ("fresh", "recycle")]
     agg = core.merge_all(core.pmap(run_unit, units))
     agg.notes["bound"] = f"arith/compare operands len<={N}, reductions and na-ops len<={N+1}, every None subset"
